@@ -307,11 +307,15 @@ def run_case(case, ctx):
         cx, cy = np.array([[val(fx)], [val(fx)]]), np.array([[val(fy), val(fy), val(fy)]])
     method = ('raw', 'repr')[i % 2]
 
+    hist = (i % 3 == 1)
+
     def mkx():
-        return Fxp(cx, fx[0], fx[1], fx[2], raw=True, rounding=rx, overflow=ox, op_method=method)
+        x_ = Fxp(cx, fx[0], fx[1], fx[2], raw=True, rounding=rx, overflow=ox, op_method=method)
+        return G.historied(Fxp, x_, rng)[0] if hist else x_
 
     def mky():
-        return Fxp(cy, fy[0], fy[1], fy[2], raw=True, rounding=ry, overflow=oy, op_method=method)
+        y_ = Fxp(cy, fy[0], fy[1], fy[2], raw=True, rounding=ry, overflow=oy, op_method=method)
+        return G.historied(Fxp, y_, rng)[0] if hist else y_
 
     def mkt():
         t = Fxp(None, ft[0], ft[1], ft[2], rounding=rt, overflow=ot)
